@@ -106,11 +106,18 @@ Proof. eexists. repeat split. Qed.
 (** ** the theorems hold of apply_esubst / apply_ssubst as they are written in the CURRENT
        rust/src/lib.rs: Gen/SubstFns.v is regenerated from the source on every run
        (translators/rust_subst.py) and proved equal to the model *)
-From Pi2 Require Import Gen.SubstFns ML.GenAgree.
+From Pi2 Require Import Gen.SubstFns Gen.InstFn ML.GenAgree.
 Theorem C11_substitution_translation_validated :
   (forall p x plug, gen_apply_esubst p x plug = apply_esubst gs p x plug) /\
-  (forall p X plug, gen_apply_ssubst p X plug = apply_ssubst gs p X plug).
-Proof. exact (conj gen_apply_esubst_eq gen_apply_ssubst_eq). Qed.
+  (forall p X plug, gen_apply_ssubst p X plug = apply_ssubst gs p X plug) /\
+  (forall p vars plugs, gen_instantiate_in_place p vars plugs = inst gs p vars plugs).
+Proof. exact (conj gen_apply_esubst_eq (conj gen_apply_ssubst_eq gen_instantiate_in_place_eq)). Qed.
+(** the composition law stated on the source's own instantiate_in_place (Gen/InstFn.v, regenerated by translators/rust_inst.py) *)
+Corollary C11_source_inst_compose : forall p v1 p1 v2 p2 p1' q1 q3,
+  length v1 = length p1 -> inst_all gs p1 v2 p2 = Some p1' ->
+  gen_instantiate_in_place p v1 p1 = Some q1 -> gen_instantiate_in_place p (v1 ++ v2) (p1' ++ p2) = Some q3 ->
+  gen_instantiate_in_place q1 v2 p2 = Some q3.
+Proof. intros p v1 p1 v2 p2 p1' q1 q3. rewrite !gen_instantiate_in_place_eq. apply C11_inst_compose. Qed.
 Print Assumptions C11_substitution_translation_validated.
 Corollary C11_source_esubst_textbook : forall a x r c, concrete a = true -> gen_apply_esubst a x r = Some c -> c = esubst_ref a x r.
 Proof. intros a x r c. rewrite gen_apply_esubst_eq. apply C11_esubst_textbook. Qed.
